@@ -75,6 +75,8 @@ PP_IF_TOKEN = re.compile(
     r"(?P<ws>\s+)|(?P<num>0[xX][0-9a-fA-F]+[uUlL]*|\d+[uUlL]*)|(?P<name>[A-Za-z_]\w*)"
     r"|(?P<op>&&|\|\||==|!=|<=|>=|<<|>>|[-+*/%<>!~&|^()])|(?P<bad>.)"
 )
+# Longest line macro substitution may produce
+PP_MAX_LINE_LENGTH = 100000
 PP_IF_UNARY = {
     "!": lambda a: int(not a),
     "~": lambda a: ~a,
@@ -2423,6 +2425,10 @@ def preprocess_file(
                 value = value.replace("\\", r"\\")
 
             line_new, nsubs = def_regex.subn(value, line)
+            if len(line_new) > PP_MAX_LINE_LENGTH:
+                # Definitions that use each other can grow a line exponentially
+                log.debug("%s !!! Macro expansion too long(%d)", line[:40], i + 1)
+                break
             if nsubs > 0:
                 log.debug(
                     "%s !!! Macro sub(%d) '%s' -> '%s'",
